@@ -408,7 +408,7 @@ func directed(r *runner, rng *rand.Rand, n int) {
 			}
 		}
 		class := ""
-		switch i % 8 {
+		switch i % 9 {
 		case 0: // e9c2bca: prewrite over the own pessimistic lock, another commit between start ts and for-update ts
 			class = "own-pess-prewrite"
 			// b commits k with a.s < b.c < a.f (ranks arranged by construction below)
@@ -529,6 +529,41 @@ func directed(r *runner, rng *rand.Rand, n int) {
 				}
 			}
 			add(fmt.Sprintf("get %s %s -", hx(k), hx(cur)))
+		case 8: // the deadlock detector: wait-for edges survive across calls until commit / rollback / cleanup of the waiter
+			class = "deadlock"
+			n := 2 + rng.Intn(2) // a cycle of 2 or 3 transactions over as many keys
+			ts := []uint64{tsOf(40), tsOf(42), tsOf(44)}
+			rng.Shuffle(3, func(x, y int) { ts[x], ts[y] = ts[y], ts[x] })
+			lock := func(t uint64, key int, nowait bool) string {
+				nw := "1"
+				if !nowait {
+					nw = "0"
+				}
+				return fmt.Sprintf("pl 1 %s %s 3 0 0 0 0 %s %s %d:0", hx(t), hx(tsOf(50)), w.b(15), nw, key)
+			}
+			for j := 0; j < n; j++ { // txn j holds key j+1
+				add(lock(ts[j], j+1, true))
+			}
+			for j := 0; j < n-1; j++ { // txn j waits for txn j+1
+				add(lock(ts[j], j+2, rng.Intn(8) != 0))
+				if rng.Intn(4) == 0 {
+					add(lock(ts[j], j+2, true)) // the same edge again
+				}
+			}
+			switch rng.Intn(6) { // now and then the waiter's edges are dropped first: no deadlock any more
+			case 0:
+				add(fmt.Sprintf("cm 4 %s %s", hx(ts[0]), hx(tsOf(60))))
+			case 1:
+				add(fmt.Sprintf("rb 4 %s", hx(ts[rng.Intn(n)])))
+			case 2:
+				add(fmt.Sprintf("cl 4 %s 0", hx(ts[rng.Intn(n)])))
+			}
+			maybeNoise()
+			add(lock(ts[n-1], 1, true))                                                     // closes the cycle
+			add(fmt.Sprintf("pl 1 %s %s 3 0 0 0 0 0 1 1:0,2:0", hx(ts[n-1]), hx(tsOf(50)))) // two keys, both held by others
+			add(fmt.Sprintf("pr 0 0 - %s %s", hx(ts[0]), hx(tsOf(50))))                     // releasing the locks does not clear edges
+			add(lock(ts[1], 1, true))
+			add(fmt.Sprintf("rb 1,2,3 %s", hx(ts[0])), lock(ts[n-1], 1, true))
 		case 4: // every command twice in a row (idempotence)
 			class = "repeat"
 			f := fin{}
